@@ -467,6 +467,7 @@ func init() {
 			allowed := map[string]string{
 				"pkg/document/crdt.NewArray -> InsertAfter":        "inserting after the last position of a list built in the same loop: the anchor always exists",
 				"pkg/document/crdt.NewRGATreeList -> NewPrimitive": "the dummy head's value is the constant 0, which NewPrimitive always accepts",
+				"(*pkg/document/crdt.RGATreeSplit[V]).isolateRange -> splitNode": "documented precondition pieceStart <= from < to <= pieceEnd makes the offset valid (splitNode fails only on an out-of-range offset)",
 			}
 			n, dropped := 0, map[string][]string{}
 			for _, fn := range x.P.FuncsIn(pkgs...) {
